@@ -50,6 +50,8 @@ theorem renderA1_congr (e1 e2 : Env) : ∀ (e : Expr), (∀ t ∈ toRpn e, t.env
     simp only [renderA1]; rw [renderArgs_congr e1 e2 args (fun t ht => h t (by simp [toRpn, ht]))]
   | .funcVar c i args, h => by
     simp only [renderA1]; rw [renderArgs_congr e1 e2 args (fun t ht => h t (by simp [toRpn, ht]))]
+  | .inert t e, h => by
+    simp only [renderA1]; exact renderA1_congr e1 e2 e (fun t' ht => h t' (by simp [toRpn, ht]))
 theorem renderArgs_congr (e1 e2 : Env) : ∀ (args : List Expr), (∀ t ∈ toRpnArgs args, t.envAgree e1 e2) →
     renderArgs e1 args = renderArgs e2 args
   | [], _ => by simp [renderArgs]
